@@ -3,3 +3,4 @@ import ScnrVerif.Model.Dfa
 import ScnrVerif.Model.FindFrom
 import ScnrVerif.Model.Iter
 import ScnrVerif.Model.SpecFind
+import ScnrVerif.Model.SpecIter
